@@ -23,10 +23,23 @@ Decided deductively (real code, every path; oracle from the statement):
     `decode_tcp_peer_from_compact_address` accepts only public IPv4 (44 fixed addresses), ports 1024..65535, 48-byte ids;
   * `_search_round` never probes the searching node, a contacted peer, or more than ALPHA peers at once, and reports
     exhaustion exactly when nothing is in flight and nothing was scheduled;
-  * blob announcer — `BlobAnnouncer._run_consumer`: every queued blob is attempted once, recorded as announced only if stored.
+  * blob announcer — `BlobAnnouncer._run_consumer`: every queued blob is attempted once, recorded as announced only if stored;
+  * refresh stability — `add_peer_to_blob` on an entry that is already listed (1..3 entries, the refreshed one at any index)
+    keeps the position of every entry (clause a_refresh_keeps_every_position of expiry.announce[*]); `paging.refreshed[n,gap]`:
+    with 9 / 17 announcers stored through the real `KademliaRPC.store`, the store datagram of ANY announcer delivered a second
+    time between two page requests of one lookup (9: the only gap; 17: the second gap, the first one and 25 announcers in the
+    thorough tier; any time before expiry) leaves the union of the pages complete and repetition-free (real store /
+    add_peer_to_blob / find_value / value finder);
+  * RPC failure accounting — the real `KademliaProtocol.send_request / _send / handle_response_datagram /
+    handle_error_datagram` with the real `PeerManager` and `DictDataStore`, one request, outcome scripted at the
+    `asyncio.wait_for` (reply, reply from another address, error datagram, time-out, waiting task CANCELLED): a cancelled or
+    answered request records no failure and the peer's announcement is still served; a timed-out / remotely failed request
+    records exactly one failure for that peer; the response future never stays registered (send_request.accounting).
 Bounded stand-ins (not proofs): paging lemma and find_value contract for every n in 0..100 on the real
-server, data store and client; IPv4 ranges; 25 hostile findValue replies; 8 simulated networks of real Nodes (hit
-guarantee, storage on close nodes, expiry).
+server, data store and client; paging with a duplicated store datagram for every n in 9..40 x announcer x page gap; IPv4
+ranges; 25 hostile findValue replies; 8 simulated networks of real Nodes (hit guarantee, storage on close nodes, expiry);
+5 simulated networks with latency in which every node abandons a lookup while its probe to the announcer is in flight
+(real asyncio cancellation) and the announcer must still be found by everybody afterwards.
 """
 import asyncio as _asyncio
 import functools as _functools
@@ -370,6 +383,18 @@ def make_announce_proof(n, dup):
         others = [s for s in result[0] if s[0] != n]
         return others == [(i, 3000 + i, kw[f"ts{i}"]) for i in range(n)] and result[1] == [(n, 2999, kw['old_ts'])]
 
+    def ensures_a_refresh_keeps_every_position(result):
+        # the storing node serves the announcers of a blob page by page (statement: "paging returns all of them"); the pages of
+        # ONE lookup are cut from the stored sequence, and a re-announcement / duplicated store datagram may arrive between two
+        # page requests (quantifier: duplication, arbitrary delay) — so refreshing an existing entry must leave the sequence of
+        # contacts as it was (only that entry's time stamp and port change).  Nothing is demanded here about where a NEW
+        # announcer goes (the relative order of the others is part of other_announcements_untouched)
+        if dup is None:
+            return True
+        before = list(range(n))
+        before.insert(dup, n)
+        return [s[0] for s in result[0]] == before
+
     def samples():
         import itertools
         now = 10 ** 6
@@ -386,6 +411,7 @@ def make_announce_proof(n, dup):
                 ensures_findable_until_expiry=_sig(ensures_findable_until_expiry, types, True),
                 ensures_recorded_once_with_the_announcement_time=_sig(ensures_recorded_once_with_the_announcement_time, types, True),
                 ensures_other_announcements_untouched=_sig(ensures_other_announcements_untouched, types, True),
+                ensures_a_refresh_keeps_every_position=staticmethod(ensures_a_refresh_keeps_every_position),
                 samples=staticmethod(samples),
                 note="lookup 0, 1, 86399, 86400, 86401 s after the announcement; earlier announcement fresh .. long expired",
                 __doc__=f"add_peer_to_blob on a store with history ({n} other announcement(s); earlier announcement of the same peer "
@@ -831,6 +857,130 @@ class ContractEveryN:
         for n in range(0, N_MAX + 1):
             for page in sorted({-1, 0, 1, n // K - 1, n // K, n // K + 1, n // K + 2}):
                 yield dict(n=n, page=page, asker=(n + page) % 3)
+
+
+# -------------------------------------------------------------------------------- 3b. paging while announcements are refreshed
+
+def store_datagram(rpc, i):
+    """a store request of announcer i as KademliaProtocol.handle_request_datagram hands it to KademliaRPC.store: the contact
+    is built from the datagram's source address, the token is the one this node issued to that address"""
+    contact = KademliaPeer(ip_of(i), id_of(i), 4000 + i, None)
+    return rpc.store(contact, KEY, rpc.make_token(contact.compact_ip()), 3000 + i)
+
+
+class DuplicatedStore:
+    """environment of one paged lookup: the store datagram of announcer `who` reaches the storing node a second time (network
+    duplication, or a re-announcement) between the lookup's page requests number `when` - 1 and `when`, at clock `at`"""
+
+    def __init__(self, rpc, loop, n, who, when, at):
+        self.rpc, self.loop, self.n, self.who, self.when, self.at = rpc, loop, n, who, when, at
+        self.delivered = 0
+
+    def between_pages(self, probes):
+        if probes == self.when:
+            self.loop.now = self.at
+            for j in range(self.n):                     # (one fork per announcer on the symbolic side)
+                if j == self.who:
+                    store_datagram(self.rpc, j)
+                    self.delivered += 1
+
+
+async def drive_paged_lookup(stub, environment):
+    """drive_value_lookup, with the rest of the network acting between two page requests of the lookup"""
+    loop = Clock(1000)
+    finder = IterativeValueFinder(loop, ClientProtocol(loop, Verdicts([None] * 500), CLIENT_ID, stub), KEY, -1, [])
+    probes = 0
+    while SERVER_PEER not in finder.contacted and probes < 40:
+        environment.between_pages(probes)
+        finder.contacted.add(SERVER_PEER)                       # IterativeFinder._schedule_probe
+        await finder._send_probe(SERVER_PEER)
+        probes += 1
+    got = []
+    while not finder.iteration_queue.empty():
+        batch = finder.iteration_queue.get_nowait()
+        for p in batch:
+            got.append(p.tcp_port - 3000)
+    return got, stub.requested, probes, environment.delivered
+
+
+async def refreshed_paging_harness(n, who, when, at):
+    """everything real: n announcers stored through KademliaRPC.store (DictDataStore.add_peer_to_blob), pages served by
+    KademliaRPC.find_value, asked for by the real value finder; one store datagram is delivered twice"""
+    loop = Clock(1000)
+    pm = Verdicts([None] * 500)
+    server = KademliaRPC(ServerProtocol(loop, pm, SERVER_ID, Store(loop, pm)), loop, 3333)
+    for i in range(n):
+        store_datagram(server, i)
+    return await drive_paged_lookup(ServerStub(server, OUTSIDER), DuplicatedStore(server, loop, n, who, when, at))
+
+
+def pages_for(n):
+    """number of page requests a lookup needs for n announcers (K per page)"""
+    return (n + K - 1) // K
+
+
+def make_refreshed_paging_proof(n, first_gap, last_gap, thorough):
+    def run(who, when, at):
+        return refreshed_paging_harness(n, who, when, at)
+
+    def requires(who, when, at):
+        return not f9(n)                                        # known finding F9 stays excluded exactly as in `paging`
+
+    def ensures_the_duplicate_was_delivered_between_two_pages(when, result):
+        return result[3] == 1 and result[2] > when
+
+    def samples():
+        for who in range(n):
+            for when in range(first_gap, last_gap + 1):
+                for at in (1000, 1060, 1000 + DAY - 1):
+                    yield dict(who=who, when=when, at=at)
+
+    gaps = f"page {first_gap - 1} and page {first_gap}" if first_gap == last_gap else f"ANY two of the pages {first_gap - 1}..{last_gap}"
+    body = dict(inputs=dict(who=TInt(0, n - 1), when=TInt(first_gap, last_gap), at=TInt(1000, 1000 + DAY - 1)),
+                run=staticmethod(run), requires=staticmethod(requires),
+                ensures_all_announcers_delivered=staticmethod(lambda result: all_announcers_delivered(n, result)),
+                ensures_paging_is_bounded=staticmethod(lambda result: paging_is_bounded(n, result)),
+                ensures_the_duplicate_was_delivered_between_two_pages=staticmethod(ensures_the_duplicate_was_delivered_between_two_pages),
+                samples=staticmethod(samples), thorough_only=thorough,
+                note="every announcer x the stated gap(s) between two page requests x duplicate 0 s, 60 s, 86399 s after the announcements",
+                __doc__=f"the paging lemma while announcements are refreshed: {n} announcers stored through the real KademliaRPC.store "
+                        f"({pages_for(n)} pages); during ONE paged lookup (real find_value, real value finder) the store datagram of "
+                        f"ANY announcer is delivered a second time between the requests for {gaps}, at ANY time before the "
+                        f"announcements expire: the pages served before and after it still add up to every announcer exactly once")
+    proof("C12", f"paging.refreshed[{n},gap{first_gap}{'' if first_gap == last_gap else '-%d' % last_gap}]")(type('RefreshedPaging', (), body))
+
+
+make_refreshed_paging_proof(9, 1, 1, False)
+make_refreshed_paging_proof(17, 2, 2, False)
+make_refreshed_paging_proof(17, 1, 1, True)
+make_refreshed_paging_proof(25, 1, 3, True)
+
+
+@proof("C12", "paging.refreshed.every-n")
+class RefreshedPagingEveryN:
+    """BOUNDED stand-in for the same clause over the numbers of announcers that need 2..5 pages (the deductive
+    paging.refreshed[n,gap] proofs cover n = 9, 17 and 25 only): for a fixed set of announcers, the union of the pages served before and
+    after a refresh of any existing entry is the full set with no repetition"""
+    bounded_only = True
+    note = "every n in 9..40 x every announcer x a duplicate of its store datagram between page k and k+1 for every k; " \
+           "stored through the real KademliaRPC.store, served by the real find_value, paged by the real value finder"
+    inputs = dict(n=TInt(9, 40), who=TInt(0, 39), when=TInt(1, 5), at=TInt(1000, 1000 + DAY - 1))
+
+    def requires(n):
+        return not f9(n)                                        # known finding F9 (no n <= 40 is affected)
+
+    run = refreshed_paging_harness
+    ensures_all_announcers_delivered = all_announcers_delivered
+    ensures_paging_is_bounded = paging_is_bounded
+
+    def ensures_the_duplicate_was_delivered_between_two_pages(when, result):
+        return result[3] == 1 and result[2] > when
+
+    def samples():
+        for n in range(9, 41):
+            for who in range(n):
+                for when in range(1, pages_for(n)):
+                    yield dict(n=n, who=who, when=when, at=1060)
 
 
 # ================================================================================ 4. output validity of node lookups
@@ -1487,6 +1637,127 @@ class NetworkHitAndExpiry:
             yield dict(size=size, announcers=announcers, seed=seed, duplicate=duplicate, delay=delay)
 
 
+# -------------------------------------------------------------------------------- 8b. abandoned lookups (bounded)
+
+async def _abandon_lookup_while_probing(node, key, target, advance):
+    """start a value lookup on `node` and cancel it (as a caller that has seen enough does) at a moment when its findValue
+    probe to `target` is in flight; returns whether such a moment was hit"""
+    task = _asyncio.ensure_future(_value_lookup(node, key))
+    hit = False
+    for _ in range(2000):
+        for peer, future, request in list(node.protocol.sent_messages.values()):
+            if peer.address == target.protocol.external_ip and request.method == b'findValue' and not future.done():
+                hit = True
+        if hit or task.done():
+            break
+        await advance(0.01)
+    task.cancel()
+    try:
+        await task
+    except _asyncio.CancelledError:
+        pass
+    return hit
+
+
+async def simulate_abandoned_lookups(size, seed, delay):
+    """`size` real Nodes on the in-memory network with virtual time and a random latency below `delay` s per datagram (no
+    loss); the last node announces a blob; then EVERY other node runs a lookup that is abandoned while its probe to the
+    announcer is in flight; after the delayed replies have arrived (and were ignored) every node looks the blob up again,
+    right away and half an hour later"""
+    from lbry.dht.node import Node
+    from tests import dht_mocks
+    loop = _asyncio.get_event_loop()
+    errors = []
+    loop.set_exception_handler(lambda _loop, context: errors.append(str(context.get('exception') or context.get('message'))))
+    rnd = _random.Random(seed)
+    result = {}
+    with dht_mocks.mock_network_loop(loop):
+        advance = dht_mocks.get_time_accelerator(loop)
+        jump = dht_mocks.get_time_accelerator(loop, instant_step=True)
+        boot = Node(loop, PeerManager(loop), constants.generate_id(3000 + seed), 4444, 4444, 3333, '1.2.3.4', is_bootstrap_node=True)
+        nodes = [boot]
+        try:
+            _perturb(boot, rnd, False, delay)
+            boot.start('1.2.3.4', [])
+            boot.protocol.ping_queue._default_delay = 0
+            for i in range(1, size):
+                node = Node(loop, PeerManager(loop), constants.generate_id(seed * 100 + 50 + i), 4444, 4444, 3333 + i, '1.3.3.%d' % i)
+                _perturb(node, rnd, False, delay)
+                node.start('1.3.3.%d' % i, [('1.2.3.4', 4444)])
+                nodes.append(node)
+                for _ in range(200):
+                    if node.joined.is_set():
+                        break
+                    await advance(1)
+                if not node.joined.is_set():
+                    return dict(joined=False)
+            for _ in range(400):
+                await advance(1)
+            result['joined'] = True
+            key = constants.generate_id(8888 + seed)
+            announcer = nodes[-1]
+            stored_to = await _until_done(announcer.announce_blob(key.hex()), advance)
+            result['stored'] = not isinstance(stored_to, str) and len(stored_to) == min(K, size - 1)
+
+            async def everybody_finds_the_announcer():
+                ok = True
+                for n in nodes[:-1]:
+                    found = await _until_done(_value_lookup(n, key), advance)
+                    if isinstance(found, str) or not any(
+                            p.address == announcer.protocol.external_ip and p.tcp_port == announcer.protocol.peer_port
+                            and p.node_id == announcer.protocol.node_id for p in found):
+                        ok = False
+                return ok
+            result['hit_before'] = await everybody_finds_the_announcer()
+            abandoned = 0
+            for n in nodes[:-1]:
+                if await _abandon_lookup_while_probing(n, key, announcer, advance):
+                    abandoned += 1
+            result['abandoned_in_flight'] = abandoned
+            for _ in range(30):                                 # the replies to the abandoned probes arrive
+                await advance(0.1)
+            result['hit_after'] = await everybody_finds_the_announcer()
+            await jump(1800)
+            result['hit_half_an_hour_later'] = await everybody_finds_the_announcer()
+            result['announcer_still_good'] = all(n.protocol.peer_manager.peer_is_good(
+                make_kademlia_peer(announcer.protocol.node_id, announcer.protocol.external_ip, announcer.protocol.udp_port)) is not False
+                for n in nodes[:-1])
+        finally:
+            for n in nodes:
+                n.stop()
+    result['callback_errors'] = len(errors)
+    return result
+
+
+@proof("C12", "network.abandoned-lookups")
+class NetworkAbandonedLookups:
+    """BOUNDED stand-in (real Nodes, real asyncio tasks and cancellation, in-memory loss-free network with latency): a lookup
+    that its caller abandons while a probe is in flight must not make a live, honest node look failed.  Every node other than
+    the announcer abandons one lookup while its findValue probe to the announcer is pending; afterwards every other node's
+    value lookup still returns the announcer (the announcement is minutes old), and no node regards the announcer as bad."""
+    bounded_only = True
+    note = "5 networks of sizes 3, 5, 6, 9, 9 (every other node stores the announcement), latency < 0.3 s per datagram, no loss"
+    inputs = dict(size=TInt(3, 9), seed=TInt(0), delay=TInt(1, 1))
+
+    async def run(size, seed, delay):
+        return await simulate_abandoned_lookups(size, seed, 0.3 * delay)
+
+    def ensures_scenario_was_exercised(size, result):
+        # vacuity guard: the network formed, the blob was stored and found, and every lookup was abandoned with a probe in flight
+        return (result.get('joined') is True and result['stored'] and result['hit_before']
+                and result['abandoned_in_flight'] == size - 1)
+
+    def ensures_every_other_node_still_finds_the_announcer(result):
+        return result['hit_after'] and result['hit_half_an_hour_later']
+
+    def ensures_nobody_regards_the_announcer_as_failed(result):
+        return result['announcer_still_good']
+
+    def samples():
+        for size, seed in ((3, 0), (5, 1), (6, 2), (9, 0), (9, 4)):
+            yield dict(size=size, seed=seed, delay=1)
+
+
 # ================================================================================ 9. blob announcer (one consumer pass)
 
 from lbry.dht.blob_announcer import BlobAnnouncer        # noqa: E402
@@ -1565,6 +1836,290 @@ class AnnouncerConsumer:
                 yield dict(s0=[b'x'] * a, s1=[b'y'] * b, s2=[b'z'] * c, f0=fails[0], f1=fails[1], f2=fails[2])
 
 
+# ================================================================================ 10. RPC failure accounting (send_request)
+
+from lbry.dht.protocol.protocol import KademliaProtocol                                              # noqa: E402
+from lbry.dht.serialization.datagram import RequestDatagram, ResponseDatagram, ErrorDatagram         # noqa: E402
+from lbry.dht.serialization.datagram import RESPONSE_TYPE, ERROR_TYPE                                # noqa: E402
+from lbry.dht.error import RemoteException                                                           # noqa: E402
+
+RPC_ID = bytes(range(100, 120))
+OTHER_RPC_ID = bytes(range(120, 140))
+ANNOUNCER = make_kademlia_peer(id_of(0), ip_of(0), 4000, 3000)      # a live, honest node that announced KEY to this node
+BYSTANDER = make_kademlia_peer(id_of(1), ip_of(1), 4001, 3001)      # another node with a request of ours in flight
+
+REPLY, REPLY_FROM_ELSEWHERE, REMOTE_ERROR, TIMEOUT, CANCELLED = 0, 1, 2, 3, 4
+
+
+class Metric:
+    """prometheus counter / histogram / gauge as used by the protocol: calls are counted"""
+
+    def __init__(self):
+        self.count = 0
+
+    def labels(self, scope=None, method=None):
+        return self
+
+    def inc(self):
+        self.count += 1
+
+    def observe(self, amount):
+        self.count += 1
+
+    def set(self, value):
+        self.count += 1
+
+
+class NullGauge:
+    """prometheus gauge of the peer manager's cache sizes: ignored"""
+
+    def labels(self, scope=None):
+        return self
+
+    def set(self, value):
+        pass
+
+
+class Accounting(PeerManager):
+    """the REAL PeerManager; the failure reports it receives are additionally listed"""
+    peer_manager_keys_metric = NullGauge()
+
+    def __init__(self, loop):
+        super().__init__(loop)
+        self.failures = []
+
+    def report_failure(self, address, udp_port):
+        self.failures.append((address, udp_port))
+        super().report_failure(address, udp_port)
+
+
+class PendingReply:
+    """asyncio.Future as far as _send / send_request / handle_response_datagram / handle_error_datagram use it (state machine,
+    done callbacks, InvalidStateError on double completion).  What happens WHILE send_request waits for it under
+    asyncio.wait_for is decided by the scenario (`world.while_waiting`): a datagram arrives, the timer fires, or the waiting
+    task is cancelled by its owner."""
+
+    def __init__(self, world):
+        self.world = world
+        self.state = 'pending'
+        self.value = None
+        self.callbacks = []
+        self.awaited = 0
+
+    def done(self):
+        return self.state != 'pending'
+
+    def cancelled(self):
+        return self.state == 'cancelled'
+
+    def add_done_callback(self, callback):
+        self.callbacks.append(callback)
+
+    def finish(self, state, value):
+        if self.state != 'pending':
+            raise _asyncio.InvalidStateError('invalid state')
+        self.state = state
+        self.value = value
+        callbacks = self.callbacks
+        self.callbacks = []
+        for callback in callbacks:                  # asyncio runs them before the next datagram is looked at
+            callback(self)
+
+    def cancel(self):
+        if self.state != 'pending':
+            return False
+        self.finish('cancelled', None)
+        return True
+
+    def set_result(self, value):
+        self.finish('result', value)
+
+    def set_exception(self, error):
+        self.finish('exception', error)
+
+    def __await_model__(self):
+        self.awaited += 1
+        self.world.while_waiting(self)
+        if self.state == 'result':
+            return self.value
+        if self.state == 'exception':
+            raise self.value
+        raise _asyncio.CancelledError()
+
+    def __await__(self):
+        if False:
+            yield None
+        return self.__await_model__()
+
+
+def _m_wait_for_scripted(interp, st, args, kwargs):
+    """asyncio.wait_for(future, timeout) on a PendingReply: the outcome (result / exception of the future, TimeoutError with the
+    future cancelled, CancelledError) is produced by the future's scenario"""
+    yield from interp.bm.do_await(interp, st, args[0])
+
+
+class RpcLoop(TickClock):
+    """event loop as seen by the protocol: clock and create_future"""
+
+    def __init__(self, ticks, world):
+        self.ticks = ticks
+        self.world = world
+
+    def create_future(self):
+        return PendingReply(self.world)
+
+
+class WireOut:
+    """datagram transport: records what is sent"""
+
+    def __init__(self):
+        self.sent = []
+
+    def is_closing(self):
+        return False
+
+    def sendto(self, data, address):
+        self.sent.append((len(data), address))
+
+
+class Requester(KademliaProtocol):
+    """a KademliaProtocol without its routing table, ping queue and asyncio objects: send_request, _send and the
+    handle_*_datagram methods are the REAL ones; routing-table updates are recorded"""
+
+    def __init__(self, loop, peer_manager):         # noqa  (the real constructor builds the routing table and asyncio primitives)
+        self.loop = loop
+        self.peer_manager = peer_manager
+        self.node_id = CLIENT_ID
+        self.external_ip = '7.7.7.7'
+        self.udp_port = 4445
+        self.sent_messages = {}
+        self.transport = WireOut()
+        self.rpc_timeout = 5.0
+        self.request_sent_metric = Metric()
+        self.request_success_metric = Metric()
+        self.request_error_metric = Metric()
+        self.response_time_metric = Metric()
+        self.data_store = DictDataStore(loop, peer_manager)
+        self.added = []
+        self.removed = []
+
+    def add_peer(self, peer):
+        self.added.append(peer.udp_port - 4000)
+
+    def remove_peer(self, peer):
+        self.removed.append(peer.udp_port - 4000)
+
+
+class RpcWorld:
+    """the scenario: what the rest of the world does while send_request waits for the reply to RPC_ID"""
+
+    def __init__(self, scenario, timer_cancels):
+        self.scenario = scenario
+        self.timer_cancels = timer_cancels
+        self.proto = None
+
+    def while_waiting(self, future):
+        source = (ANNOUNCER.address, ANNOUNCER.udp_port)
+        if self.scenario == REPLY:                              # the peer answers
+            self.proto.handle_response_datagram(source, ResponseDatagram(RESPONSE_TYPE, RPC_ID, ANNOUNCER.node_id, b'pong'))
+        elif self.scenario == REPLY_FROM_ELSEWHERE:             # somebody else answers in its name
+            self.proto.handle_response_datagram(('8.8.9.9', 4000), ResponseDatagram(RESPONSE_TYPE, RPC_ID, ANNOUNCER.node_id, b'pong'))
+        elif self.scenario == REMOTE_ERROR:                     # the peer answers with an error datagram
+            self.proto.handle_error_datagram(source, ErrorDatagram(ERROR_TYPE, RPC_ID, ANNOUNCER.node_id, b'ValueError', b'no'))
+        elif self.scenario == TIMEOUT:                          # nothing arrives: wait_for cancels the future, raises TimeoutError
+            self.proto.loop.ticks += 5 * 1024
+            future.cancel()
+            raise _asyncio.TimeoutError()
+        else:                                                   # the owner of the waiting task cancels it (lookup abandoned)
+            if self.timer_cancels:
+                future.cancel()                                 # asyncio.wait_for passes the cancellation on to the future
+            raise _asyncio.CancelledError()
+
+
+async def request_harness(scenario, timer_cancels, replied_before, late_reply, busy):
+    """one request to a peer that announced KEY to this node a minute ago; afterwards (one more minute later) the node's data
+    store is asked for the announcers of KEY, as find_value does for every requester"""
+    world = RpcWorld(scenario, timer_cancels)
+    loop = RpcLoop(NOW_TICKS, world)
+    pm = Accounting(loop)
+    proto = Requester(loop, pm)
+    world.proto = proto
+    if replied_before:                                          # e.g. the ping that put the peer into the routing table
+        pm.report_last_replied(ANNOUNCER.address, ANNOUNCER.udp_port)
+    proto.data_store.add_peer_to_blob(ANNOUNCER, KEY)
+    proto.data_store.add_peer_to_blob(BYSTANDER, KEY)
+    loop.ticks += 60 * 1024
+    other = None
+    if busy:                                                    # a request to another peer is in flight and stays so
+        proto._send(BYSTANDER, RequestDatagram.make_ping(CLIENT_ID, OTHER_RPC_ID))
+        other = proto.sent_messages[OTHER_RPC_ID][1]
+    request = RequestDatagram.make_ping(CLIENT_ID, RPC_ID)
+    outcome, answer, future = None, None, None
+    try:
+        task = proto.send_request(ANNOUNCER, request)
+        answer = await task
+        outcome = 'answer'
+    except _asyncio.TimeoutError:
+        outcome = 'timeout'
+    except _asyncio.CancelledError:
+        outcome = 'cancelled'
+    except RemoteException:
+        outcome = 'remote error'
+    if late_reply:                                              # the reply was only delayed: it arrives after the request was given up
+        proto.handle_response_datagram((ANNOUNCER.address, ANNOUNCER.udp_port),
+                                       ResponseDatagram(RESPONSE_TYPE, RPC_ID, ANNOUNCER.node_id, b'pong'))
+    loop.ticks += 60 * 1024
+    served = [p.udp_port - 4000 for p in proto.data_store.get_peers_for_blob(KEY)]
+    return dict(outcome=outcome, answer=None if answer is None else answer.response, failures=list(pm.failures),
+                served=served, good=pm.peer_is_good(ANNOUNCER), pending=sorted(proto.sent_messages.keys()),
+                other_pending=other is not None and not other.done(), removed=proto.removed, sent=len(proto.transport.sent))
+
+
+@proof("C12", "send_request.accounting")
+class SendRequestAccounting:
+    """RPC failure accounting of the REAL KademliaProtocol.send_request / _send / handle_response_datagram /
+    handle_error_datagram with the REAL PeerManager and DictDataStore, for every outcome of one request to a live, honest peer
+    whose announcement this node stores: the peer answers; the answer comes from another address; the peer answers with an
+    error; nothing arrives within the RPC time-out; the waiting task is CANCELLED (an iterative lookup that is abandoned while
+    its probe is in flight) -- with or without an earlier reply of the peer, with or without the delayed reply arriving
+    afterwards, with or without another request in flight.  Statement: announcements of live, honest nodes are found until
+    they expire, only contacts that really failed count as failed: a cancelled request records NO failure and the peer's
+    announcement is still served; a timed-out or remotely failed request records exactly one failure for that peer."""
+    inputs = dict(scenario=TInt(0, 4), timer_cancels=TBool(), replied_before=TBool(), late_reply=TBool(), busy=TBool())
+    models = {_asyncio.wait_for: _m_wait_for_scripted}
+    note = "all 5 outcomes x wait_for cancels the future itself or not x earlier reply or not x late reply or not x another request " \
+           "in flight or not (80 cases, each also run with the real asyncio.wait_for)"
+    run = request_harness
+
+    def ensures_outcome_is_reported_to_the_caller(scenario, result):
+        expected = {REPLY: 'answer', REPLY_FROM_ELSEWHERE: 'remote error', REMOTE_ERROR: 'remote error', TIMEOUT: 'timeout',
+                    CANCELLED: 'cancelled'}[scenario]
+        return result['outcome'] == expected and (result['answer'] == b'pong') == (scenario == REPLY) and result['sent'] >= 1
+
+    def ensures_a_cancelled_or_answered_request_records_no_failure(scenario, result):
+        return implies(scenario == CANCELLED or scenario == REPLY, result['failures'] == [] and result['removed'] == [])
+
+    def ensures_a_failed_request_records_exactly_one_failure_for_that_peer(scenario, result):
+        return implies(scenario in (REPLY_FROM_ELSEWHERE, REMOTE_ERROR, TIMEOUT), result['failures'] == [(ANNOUNCER.address, 4000)])
+
+    def ensures_the_announcement_of_a_peer_that_did_not_fail_is_still_served(scenario, result):
+        # hit guarantee at the storing node: the announcer is live and honest, its announcement is two minutes old
+        return implies(scenario == CANCELLED or scenario == REPLY, result['served'] == [0, 1] and result['good'] is not False)
+
+    def ensures_the_answering_peer_is_good(scenario, result):
+        return implies(scenario == REPLY, result['good'] is True)
+
+    def ensures_nothing_stays_registered_and_other_requests_are_untouched(busy, result):
+        # the response future is completed or cancelled in every outcome (a late reply finds nothing to complete)
+        return result['pending'] == ([OTHER_RPC_ID] if busy else []) and result['other_pending'] == busy
+
+    def samples():
+        import itertools
+        for scenario, timer_cancels, replied_before, late_reply, busy in itertools.product(range(5), (False, True), (False, True),
+                                                                                           (False, True), (False, True)):
+            yield dict(scenario=scenario, timer_cancels=timer_cancels, replied_before=replied_before, late_reply=late_reply, busy=busy)
+
+
 import logging as _logging
 _logging.getLogger('lbry.dht').setLevel(_logging.ERROR)          # the finders log every misbehaving reply of the hostile cases
 
@@ -1577,6 +2132,10 @@ TRUSTED = [
     "ipaddress.ip_address / lbry.utils.is_valid_public_ipv4 are executed by CPython on concrete addresses only",
     "bencode/bdecode deliver the byte strings and integers of a reply unchanged (property C17); the harness hands the server's "
     "reply dictionary to the client directly, converting bytearray to bytes as the wire does",
+    "asyncio.wait_for(future, t) returns the future's result or raises its exception; on time-out it cancels the future and raises "
+    "TimeoutError; when the waiting task is cancelled it raises CancelledError at the await (having cancelled the future or not: "
+    "both are covered); a future runs its done-callbacks before the next datagram is processed (PendingReply calls them at "
+    "once); nothing else runs between two awaits (send_request.accounting; the bounded cases use the real asyncio.wait_for)",
 ]
 NOT_DECIDED = [
     "hit guarantee across the network (join through a bootstrap node, routing tables, storage on the K closest nodes, every "
@@ -1584,8 +2143,17 @@ NOT_DECIDED = [
     "bounded stand-in network.hit-and-expiry (8 simulated networks) and the per-node lemmas (expiry.*, store.token, paging)",
     "termination of every iterative lookup within a bounded number of RPC time-outs under loss, silence and hostile replies: "
     "NOT proved; only the per-round facts of search-round.bookkeeping, paging_is_bounded and the bounded hostile replies",
-    "behaviour under datagram loss, RPC time-out and failure accounting inside KademliaProtocol.send_request (asyncio.wait_for, "
-    "futures) — asyncio primitives are outside the engine",
+    "behaviour under datagram loss and RPC time-outs across a whole lookup: send_request is decided for ONE request whose "
+    "outcome is scripted at asyncio.wait_for (send_request.accounting); real timers, several requests racing in one event loop "
+    "and the finder's reaction to a series of time-outs are exercised only by the bounded networks",
+    "remark R5 (observation outside the clauses stated here, which fix the set of announcers during a lookup): a NEW "
+    "announcement -- or the expiry of one -- that reaches the storing node between two page requests changes len(peers) and "
+    "with it the node-id-seeded permutation find_value slices, so the pages of that lookup no longer fit together: 15 "
+    "announcers stored, a 16th stored between page 0 and page 1 -> announcers 3 and 14 (stored long before the lookup) are "
+    "never returned by that node (reproduction: /tmp/C12_work/repro_R5_new_announcer.py; 52 of the (n, gap) pairs with "
+    "n in 9..40 lose somebody); 10 stored, the oldest expires between page 0 and page 1 -> fresh announcer 3 is never "
+    "returned (/tmp/C12_work/repro_R5_expiry.py).  Other storing nodes use other permutations, so the network-wide hit is "
+    "usually rescued",
     "the link between find_value_contract and the real find_value for EVERY n: proved for n in {0,1,7,8,9,18} (27, 89 in the "
     "thorough tier), run-time checked for all n <= 100 (find_value.contract.every-n, paging.every-n)",
     "public-IPv4 classification for all 2**32 addresses: 44 fixed addresses deductively, block borders + 1500 random addresses "
@@ -1615,5 +2183,10 @@ ASSUMPTIONS = [
     "paging: the looking-up node is not itself one of the announcers and the storing node does not hold the blob itself "
     "(completed_blobs empty); the n announcers are fresh and not known bad; pages of the contract are taken in stored order",
     "the peer manager is seen by the data store and the finders through its verdict per peer (True / None / False), quantified "
-    "over all combinations; the real PeerManager is used in node-finder.replied-only",
+    "over all combinations; the real PeerManager is used in node-finder.replied-only and send_request.accounting",
+    "send_request.accounting: one ping request (fixed rpc id) to a fixed peer whose announcement is one minute old, fixed clock "
+    "readings (the request is sent at 10**6 s + 60 s, the store is read 60 s after the outcome); routing-table updates "
+    "(add_peer / remove_peer) are recorded, not executed; prometheus metrics are counting fakes",
+    "paging.refreshed: the duplicated store datagram carries the same TCP port; the set of announcers does not change during "
+    "the lookup (see remark R5) and nothing expires during it",
 ]
